@@ -8,6 +8,8 @@ def dispatch (toks : List String) : String :=
   | "C09" :: rest => Poor.Drv.Reader.handle rest
   | "C16" :: rest => Poor.Drv.Token.handle rest
   | "C14" :: rest => Poor.Drv.Headers.handle rest
+  | "C15" :: rest => Poor.Drv.Html.handleC15 rest
+  | "C20" :: rest => Poor.Drv.Html.handleC20 rest
   | _ => "bad-op"
 
 partial def loop (h : IO.FS.Stream) (out : IO.FS.Stream) : IO Unit := do
